@@ -116,7 +116,8 @@ func (o *packetScanCmdOpts) getScanRange(dstSubnet *net.IPNet) (*scan.Range, err
 	if o.srcIP != nil {
 		srcIP = o.srcIP
 	}
-	if srcIP == nil {
+	// only IPv4 is supported: an interface with IPv6 addresses only has no usable source address
+	if srcIP.To4() == nil {
 		return nil, errSrcIP
 	}
 
